@@ -96,9 +96,30 @@ def main(argv=None):
     if nproc <= 1:
         results = [_run_shard((modname, c)) for c in cfgs]
     else:
+        # hard watchdog: a shard that never returns (e.g. the library under test stuck inside a C extension, where the in-process
+        # guards cannot interrupt) must not hang the check; the finished shards are still evaluated
+        cap = float(os.environ.get("VERIF_WALL_CAP", "1500" if ns.tier == "quick" else "14400"))
         ctx = mp.get_context("fork")
-        with ctx.Pool(nproc, maxtasksperchild=1) as pool:
-            results = pool.map(_run_shard, [(modname, c) for c in cfgs], chunksize=1)
+        pool = ctx.Pool(nproc, maxtasksperchild=1)
+        try:
+            handles = [pool.apply_async(_run_shard, ((modname, c),)) for c in cfgs]
+            t_cap = t0 + cap
+            results, killed = [], 0
+            for h in handles:
+                try:
+                    results.append(h.get(timeout=max(1.0, t_cap - time.time())))
+                except mp.TimeoutError:
+                    killed += 1
+        finally:
+            pool.terminate()
+            pool.join()
+        if killed:
+            print(f"WATCHDOG property={prop}: {killed} of {len(cfgs)} shard(s) did not return within {cap:.0f} s and were terminated")
+            if not results:
+                print(f"HARNESS-ERROR property={prop}: no shard finished")
+                return 2
+            results.append(("ok", {"evaluations": 0, "nontrivial": [], "labels": {}, "samples": [], "violations": {}, "viol_counts": {},
+                                   "counters": {"shards_terminated_by_watchdog": killed}, "extra": {}}))
     bad = [r[1] for r in results if r[0] != "ok"]
     if bad:
         print(f"HARNESS-ERROR property={prop}: {len(bad)} shard(s) failed\n{bad[0]}")
@@ -160,6 +181,9 @@ def main(argv=None):
           f"violations={len(unknown)} known_fired={sum(1 for v in fired.values() if v)} wall={wall:.1f}s")
     if unknown:
         return 1
+    if acc.counters.get("shards_terminated_by_watchdog"):
+        print(f"HARNESS-ERROR property={prop}: inconclusive - {acc.counters['shards_terminated_by_watchdog']} shard(s) were terminated by the watchdog and the others found no violation")
+        return 2
     if not acc.samples:
         print(f"HARNESS-ERROR property={prop}: the run recorded no sample case for the evidence file")
         return 2
